@@ -415,14 +415,21 @@ func gjkDegenerate(sc *C14Scenario, id string) string {
 }
 
 // polylineFootprintDist: distance between a footprint and the lon/lat-linear path between the
-// end points (64 chords at altitude 0).
+// end points (chords of at most about 500 m at altitude 0).
 func polylineFootprintDist(sc *C14Scenario, k [4]v3) float64 {
-	const n = 64
 	la0, la1 := truncLat(sc.Start[1]), truncLat(sc.End[1])
+	// pieces of at most ~500 m: a chord that short stays within a centimetre of the path
+	n := int(dist(ecef(sc.Start[0], la0, 0), ecef(sc.End[0], la1, 0))/500) + 1
+	if n < 64 {
+		n = 64
+	}
+	if n > 20000 {
+		n = 20000
+	}
 	best := math.Inf(1)
 	prev := ecef(sc.Start[0], la0, 0)
 	for i := 1; i <= n; i++ {
-		t := float64(i) / n
+		t := float64(i) / float64(n)
 		cur := ecef(sc.Start[0]+t*(sc.End[0]-sc.Start[0]), la0+t*(la1-la0), 0)
 		if d := segFootprintDist(prev, cur, k); d < best {
 			best = d
